@@ -48,6 +48,18 @@ func (this *C40Encoder) encode(context *EncoderContext) error {
 			for (len(buffer)%3) == 1 && (lastCharSize > 3 || available != 1) {
 				lastCharSize, buffer, removed = this.backtrackOneCharacter(context, buffer, removed, lastCharSize)
 			}
+			// Giving characters back may have shrunk the symbol: a single value left over is
+			// only encodable if exactly one codeword remains in the symbol chosen now.
+			for (len(buffer) % 3) == 1 {
+				curCodewordCount = context.GetCodewordCount() + (len(buffer)/3)*2
+				if e := context.UpdateSymbolInfoByLength(curCodewordCount); e != nil {
+					return gozxing.WrapWriterException(e)
+				}
+				if context.GetSymbolInfo().GetDataCapacity()-curCodewordCount == 1 {
+					break
+				}
+				lastCharSize, buffer, removed = this.backtrackOneCharacter(context, buffer, removed, lastCharSize)
+			}
 			break
 		}
 
